@@ -53,7 +53,7 @@ def _alarm(_sig, _frm):
     raise ParseTimeout()
 
 
-def impl_parse(text, mode="auto", want_segments=True, limit_s=5.0):
+def impl_parse(text, mode="auto", want_segments=True, limit_s=3.0):
     """Outcome of the real parser: {"esc": <out>, "unesc": <out>} where <out> is
     {"ok": segments} | {"ypath": 1} | {"crash": "<Type>", "site": ...} | {"timeout": 1}."""
     from yamlpath import YAMLPath
@@ -130,7 +130,11 @@ def compare_chunk(args):
     viol, disag = [], []
     samples = []
     for (t, m), mo in zip(texts, model):
+        if core.aborted():
+            break   # another case already showed that the parser hangs
         im = impl_parse(t, m, want_segments=True)
+        if "timeout" in im["esc"] or "timeout" in im["unesc"]:
+            core.signal_abort()
         stats["n"] += 1
         cls = out_class(im["esc"])
         stats[cls] += 1
